@@ -18,8 +18,16 @@ from gv.ref import core as ref
 _BANKS = {}
 
 
+_GROUP_OPS = {}
+
+
 def group_ops(d, name):
-    return [np.asarray(g) for g in ref.named_group(name, d)]
+    """The same list object (and array objects) for every request: GroupAverage keeps its operators as a *static* pytree
+    field, and jax compares static fields with ==; two equal-valued but distinct numpy arrays make that comparison raise
+    (ambiguous truth value) as soon as two such models meet in one jit / pmap cache."""
+    if (d, name) not in _GROUP_OPS:
+        _GROUP_OPS[(d, name)] = [np.asarray(g) for g in ref.named_group(name, d)]
+    return _GROUP_OPS[(d, name)]
 
 
 _SRC_HASH = None
